@@ -80,3 +80,14 @@ package types
 //@   ensures roundtrip: forall t string, n int :: 0 <= n && n < 18446744073709551616 && clientID == t + "-" + dec(n) && clientID != exported.LocalhostClientID && IsClientIDFormat(clientID) && strings.TrimSpace(t) != "" ==> err == nil && result0 == t && result1 == n
 //@   ensures parsed_suffix: err == nil && clientID != exported.LocalhostClientID ==> clientID == result0 + "-" + substr(clientID, len(result0) + 1, len(clientID) - len(result0) - 1) && !contains(substr(clientID, len(result0) + 1, len(clientID) - len(result0) - 1), "-") && nth(strconv.ParseUint(substr(clientID, len(result0) + 1, len(clientID) - len(result0) - 1), 10, 64), 1) == nil && result1 == nth(strconv.ParseUint(substr(clientID, len(result0) + 1, len(clientID) - len(result0) - 1), 10, 64), 0)
 //@   ensures format: err == nil && clientID != exported.LocalhostClientID ==> IsClientIDFormat(clientID)
+
+// ---- decoding of stored client / consensus states: deterministic functions of the bytes (protobuf Any decoding
+// is outside the verified code)
+
+//@ contract MustUnmarshalConsensusState
+//@   pure
+//@   trusted protobuf Any decoding is a deterministic function of the codec and the bytes
+
+//@ contract MustUnmarshalClientState
+//@   pure
+//@   trusted protobuf Any decoding is a deterministic function of the codec and the bytes
